@@ -51,6 +51,10 @@ func newAPIGen(r *gen.R, env *apiEnv, nowMs int64) *apiGen {
 			}
 		case k < 50:
 			g.profile = "idx"
+		case k < 57:
+			g.profile = "names"
+		case k < 63:
+			g.profile = "nested"
 		}
 	}
 	g.dbs = []string{apiDBs[r.N(2)]}
@@ -63,6 +67,20 @@ func newAPIGen(r *gen.R, env *apiEnv, nowMs int64) *apiGen {
 	}
 	if g.profile == "idx" {
 		g.initIdx()
+	}
+	if g.profile == "names" {
+		// names of which one is a string prefix of another, in both components of the handle
+		g.dbs = []string{"d1", "d10"}
+		all := []string{"c", "c2", "c_archive", "c.x", "c.x.y"}
+		g.colls = []string{"c"}
+		for _, n := range all[1:] {
+			if r.P(60) {
+				g.colls = append(g.colls, n)
+			}
+		}
+		if len(g.colls) == 1 {
+			g.colls = append(g.colls, all[1+r.N(4)])
+		}
 	}
 	return g
 }
@@ -420,6 +438,85 @@ func (g *apiGen) arrayResize(c *apiCall, db, coll string) {
 	}
 }
 
+// nestedNext (profile "nested"): documents with an array of arrays m: [[1,2],[3]] and a string s;
+// operators with indexed paths into the inner arrays, alone and FOLLOWED by an operator that fails
+// ($inc on the string): a failed update leaves the document unchanged, a successful one modifies
+// exactly one document and returns the pre- or post-image it was asked for.
+func (g *apiGen) nestedNext(c *apiCall, db, coll string) *apiCall {
+	r := g.r
+	docs := g.docs(db, coll)
+	var have bsonkit.List
+	for _, d := range docs {
+		if _, ok := bsonkit.Get(d, "m").(bson.A); ok {
+			have = append(have, d)
+		}
+	}
+	if len(have) < 2 || r.P(15) {
+		c.M = "insertOne"
+		inner := func() bson.A {
+			a := bson.A{}
+			for i := 1 + r.N(3); i > 0; i-- {
+				a = append(a, []interface{}{int32(r.N(4)), int64(r.N(4)), float64(r.N(3)), "t"}[r.N(4)])
+			}
+			return a
+		}
+		m := bson.A{inner(), inner()}
+		if r.P(30) {
+			m = append(m, bson.A{inner()}, int32(5))
+		}
+		c.Doc = bson.D{{Key: "_id", Value: g.id(db, coll, 5)}, {Key: "m", Value: m}, {Key: "s", Value: "str"}, {Key: "n", Value: int32(r.N(3))}}
+		return c
+	}
+	if !r.P(70) {
+		return nil
+	}
+	d := have[r.N(len(have))]
+	path := "m." + []string{"0", "1", "2", "5"}[r.N(4)] + "." + []string{"0", "1", "2", "7"}[r.N(4)]
+	if r.P(12) {
+		path += ".0"
+	}
+	var ok bson.D
+	switch r.N(6) {
+	case 0, 1:
+		ok = bson.D{{Key: "$set", Value: bson.D{{Key: path, Value: g.value()}}}}
+	case 2, 3:
+		ok = bson.D{{Key: "$inc", Value: bson.D{{Key: path, Value: int32(1 + r.N(2))}}}}
+	case 4:
+		ok = bson.D{{Key: "$unset", Value: bson.D{{Key: path, Value: ""}}}}
+	default:
+		ok = bson.D{{Key: "$mul", Value: bson.D{{Key: path, Value: int32(2)}}}, {Key: "$push", Value: bson.D{{Key: "m.0", Value: int32(9)}}}}
+	}
+	if r.P(40) {
+		// a second operator that fails after the first one has been applied to the copy
+		bad := []bson.E{
+			{Key: "$inc", Value: bson.D{{Key: "s", Value: int32(1)}}},
+			{Key: "$push", Value: bson.D{{Key: "n", Value: int32(1)}}},
+			{Key: "$mul", Value: bson.D{{Key: "s", Value: int32(2)}}},
+			{Key: "$pop", Value: bson.D{{Key: "s", Value: int32(1)}}},
+		}[r.N(4)]
+		if bad.Key == ok[0].Key {
+			merged := append(append(bson.D{}, ok[0].Value.(bson.D)...), bad.Value.(bson.D)...)
+			ok[0].Value = merged
+		} else {
+			ok = append(ok, bad)
+		}
+	}
+	c.U = ok
+	c.Q = bson.D{{Key: "_id", Value: idxCopy(bsonkit.Get(d, "_id"))}}
+	switch r.N(4) {
+	case 0:
+		c.M = "updateOne"
+	case 1:
+		c.M, c.Q = "updateMany", bson.D{{Key: "s", Value: "str"}}
+	default:
+		c.M, c.After = "findOneAndUpdate", r.P(50)
+		if r.P(30) {
+			c.Proj, c.HasProj = bson.D{{Key: "m", Value: int32(1)}}, true
+		}
+	}
+	return c
+}
+
 func (g *apiGen) arrayFilters() ([]bson.D, bool) {
 	r := g.r
 	if !r.P(15) {
@@ -772,6 +869,44 @@ func (g *apiGen) next0() *apiCall {
 			return sc
 		}
 		db, coll = c.DB, c.Coll
+	}
+	if g.profile == "names" {
+		// documents and an index in every namespace first; then drops of the SHORTER names (collection
+		// c, database d1) and listings: the namespaces with the longer names must be untouched
+		switch {
+		case g.step <= 2*len(g.dbs)*len(g.colls):
+			i := (g.step - 1) / 2
+			c.DB, c.Coll = g.dbs[i%len(g.dbs)], g.colls[(i/len(g.dbs))%len(g.colls)]
+			db, coll = c.DB, c.Coll
+			if g.step%2 == 1 {
+				c.M, c.Doc = "insertOne", g.doc(db, coll)
+				return c
+			}
+			g.createIndex(c)
+			c.HasTTL = false
+			return c
+		case r.P(16):
+			c.M, c.Coll = "dropCollection", g.colls[0]
+			if r.P(25) {
+				c.Coll = g.colls[r.N(len(g.colls))]
+			}
+			return c
+		case r.P(5):
+			c.M, c.DB = "dropDatabase", "d1"
+			return c
+		case r.P(22):
+			c.M = []string{"listCollections", "listDatabases", "listIndexes", "estCount"}[r.N(4)]
+			c.Q = bson.D{}
+			return c
+		case r.P(10):
+			c.M, c.Q = "find", bson.D{}
+			return c
+		}
+	}
+	if g.profile == "nested" {
+		if nc := g.nestedNext(c, db, coll); nc != nil {
+			return nc
+		}
 	}
 	if g.profile == "uniq" && r.P(45) {
 		// collision pressure: inserts, updates, replacements and batches on the indexed fields
